@@ -186,7 +186,9 @@ PROPS = {
                               'C03_insertion_after_in_place_quantization_is_read_by_exactly_the_listed_operators',
                               'C03_insertion_that_is_not_retargeted_is_read_by_exactly_the_listed_operators',
                               'C03_last_instruction_of_a_nested_list_is_read_by_exactly_the_listed_operators',
-                              'C03_horizontal_grouping_produces_nests',
+                              'C03_horizontal_grouping_produces_nests', 'C03_groups_at_any_depths_are_nested_or_disjoint',
+                              'C03_consumer_side_instructions_list_one_group_each',
+                              'C03_consumer_lists_of_two_groups_are_nested_or_disjoint',
                               'C03_generator_invents_no_instruction', 'C03_mode_table', 'C03_policy_configs_have_a_mode', 'C03_policy_activations_are_per_tensor',
                               'C03_generated_last_instruction_is_read_by_exactly_the_listed_operators',
                               'C03_generated_last_instruction_is_read_by_exactly_the_listed_operators_skipping_no_quantize',
